@@ -695,6 +695,21 @@ pub fn f6(n: usize, full: bool) -> Fragment {
             .collect();
         programs.push(single(vec![tree.clone(), get(content(obj(props)))]));
     }
+    // instantiations at scope depth >= 2: a function with a rec applied several times
+    // inside another function's body, with equal and different arguments
+    for (a1, a2) in [(num(), str_()), (num(), num()), (str_(), num())] {
+        programs.push(single(vec![
+            tree.clone(),
+            fun("pair", &["a", "b"], obj(vec![prop("fst", app("tree", vec![var("a")])), prop("snd", app("tree", vec![var("b")]))])),
+            get(content(app("pair", vec![a1.clone(), a2.clone()]))),
+        ]));
+        programs.push(single(vec![
+            tree.clone(),
+            fun("pair", &["a", "b"], obj(vec![prop("fst", app("tree", vec![var("a")])), prop("snd", app("tree", vec![var("b")]))])),
+            fun("quad", &["a", "b"], obj(vec![prop("l", app("pair", vec![var("a"), var("b")])), prop("r", app("pair", vec![var("b"), var("a")]))])),
+            get(content(app("quad", vec![a1.clone(), a2.clone()]))),
+        ]));
+    }
     // a closed top-level rec used from different function scopes
     programs.push(single(vec![
         let_("t", recs[0].clone()),
@@ -723,6 +738,31 @@ pub fn f6(n: usize, full: bool) -> Fragment {
                         let_("list", E::Rec("x".into(), Box::new(obj(vec![prop("next", var("x"))])))),
                     ],
                 },
+            ],
+        });
+    }
+    // recursion points at the same syntactic position of two different modules
+    for (q1, q2) in [(Some("m".to_owned()), Some("n".to_owned())), (None, Some("n".to_owned()))] {
+        let shape = |leaf: E, name: &str| {
+            vec![
+                let_(name, E::Rec("x".into(), Box::new(obj(vec![prop("v", leaf.clone()), prop("kids", arr(var("x")))])))),
+                let_(&format!("{name}d"), obj(vec![prop("w", leaf), prop("again", arr(var(&format!("{name}d"))))])),
+            ]
+        };
+        let r1 = |n: &str| match &q1 { Some(q) => qvar(q, n), None => var(n) };
+        let r2 = |n: &str| match &q2 { Some(q) => qvar(q, n), None => var(n) };
+        programs.push(Program {
+            modules: vec![
+                Module {
+                    name: "main.oal".into(),
+                    stmts: vec![
+                        Stmt::Use("m.oal".into(), q1.clone()),
+                        Stmt::Use("n.oal".into(), q2.clone()),
+                        get(content(obj(vec![prop("a", r1("t")), prop("b", r2("u")), prop("c", r1("td")), prop("d", r2("ud"))]))),
+                    ],
+                },
+                Module { name: "m.oal".into(), stmts: shape(num(), "t") },
+                Module { name: "n.oal".into(), stmts: shape(str_(), "u") },
             ],
         });
     }
